@@ -8,7 +8,7 @@ CFG = dict(
               "ply_header_line_lf_crlf", "ply_reader_quad_fan", "ply_reader_triangle", "ply_reader_face_other",
               "ply_mixed_type_group_not_claimed", "ply_ascii_int_through_float32", "ply_ascii_int_through_float32_concrete",
               "ply_ascii_uchar_scalar_not_normalised", "ply_ascii_uchar_scalar_not_normalised_concrete",
-              "ply_spec_readback_vertex", "ply_reads_spec_pointcloud"],
+              "ply_spec_readback_vertex", "ply_reads_spec_pointcloud", "ply_group_absent_not_built"],
     # proved, but `rfl` on the specification-side definition: not counted (ignored by the check)
     helper_theorems=["fan_quad"],
     streams=[dict(name="c08", n=dict(quick=400, thorough=5000))],
